@@ -218,18 +218,18 @@ impl Property for C03 {
         "C03"
     }
     fn rule(&self) -> &'static str {
-        "proptest: (a) gateway with retention 0-3 and 1-3 initial sets, history of <=8 (quick) / <=14 (thorough) rotation attempts, each = candidate (fresh well-formed set with boundary weights/thresholds; or one malformation: empty, adjacent equal keys, descending pair, all-zero first key, zero weight, weights summing past u128, threshold 0 / total+1; or a repeat of an installed set; or an installed set's signers under a new nonce, which is a different set) x proving set (latest, any installed, never installed, latest signing a different candidate) x bypass x operator authorisation; (b) constructor cases with 0-4 such candidates. Oracle: well-formedness predicate from the statement, reference epoch/lookup model with independent set hashes, inverse-lookup invariant over every epoch and every hash ever attempted after each step, ledger-snapshot equality after every failure. non-trivial = a malformed or repeated candidate, or a non-latest proving set, occurs"
+        "proptest: (a) gateway with retention 0-3 or u64::MAX(-1) and 1-3 initial sets, history of <=8 (quick) / <=14 (thorough) rotation attempts, each = candidate (fresh well-formed set with boundary weights/thresholds; or one malformation: empty, adjacent equal keys, descending pair, all-zero first key, zero weight, weights summing past u128, threshold 0 / total+1; or a repeat of an installed set; or an installed set's signers under a new nonce, which is a different set) x proving set (latest, any installed, never installed, latest signing a different candidate) x bypass x operator authorisation; (b) constructor cases with 0-4 such candidates. Oracle: well-formedness predicate from the statement, reference epoch/lookup model with independent set hashes, inverse-lookup invariant over every epoch and every hash ever attempted after each step, ledger-snapshot equality after every failure. non-trivial = a malformed or repeated candidate, or a non-latest proving set, occurs"
     }
     fn assumptions(&self) -> Vec<&'static str> {
         vec!["a well-formed set whose first key is all-zero is not decided by the statement (Either)"]
     }
     fn cases(&self, tier: Tier) -> u64 {
-        tier.pick(5000, 80000)
+        tier.pick(10000, 100000)
     }
     fn strategy(&self, tier: Tier) -> BoxedStrategy<Case> {
         let n = tier.pick(8usize, 14usize);
         prop_oneof![
-            4 => (0u8..4, proptest::collection::vec(setgen(5), 1..4), proptest::collection::vec(attempt(), 1..=n))
+            4 => (0u8..6, proptest::collection::vec(setgen(5), 1..4), proptest::collection::vec(attempt(), 1..=n))
                 .prop_map(|(retention, initial, attempts)| Case::History { retention, initial, attempts }),
             1 => proptest::collection::vec(cand(), 0..5).prop_map(|sets| Case::Ctor { sets }),
         ]
@@ -331,8 +331,9 @@ impl Property for C03 {
             }
             Case::History { retention, initial, attempts } => {
                 let mut installed: Vec<BuiltSet> = initial.iter().enumerate().map(|(i, g)| g.build(i as u8)).collect();
-                let gw = deploy_gateway(&env, [3; 32], 0, *retention as u64, &installed).map_err(|e| format!("setup: {}", e))?;
-                let mut model = SignerModel { retention: *retention as u64, ..Default::default() };
+                let retention: u64 = match *retention { 0..=3 => *retention as u64, 4 => u64::MAX, _ => u64::MAX - 1 };
+                let gw = deploy_gateway(&env, [3; 32], 0, retention, &installed).map_err(|e| format!("setup: {}", e))?;
+                let mut model = SignerModel { retention, ..Default::default() };
                 let mut attempted: BTreeSet<[u8; 32]> = BTreeSet::new();
                 for b in &installed {
                     model.install(b.hash());
